@@ -1,6 +1,7 @@
 (** C09 property theorems (proofs in Proofs_C09.v): what pad_none / fill_none specifications do,
     and that the option encodings are interchangeable. *)
 From AwkV Require Import Layout Ops_Struct Ops_Option Carry Proofs_C09.
+From AwkV Require Import Valid Types AtAxis Carry Proofs_Lists Proofs_ToList Proofs_Carry Proofs_AtAxis Proofs_AtAxisOps.
 
 Theorem pad_gives_max_len_target : forall target t l out,
   rpad_f target t l = Ok (VList out) -> zlen out = Z.max (zlen l) target.
@@ -56,3 +57,16 @@ Theorem unmasked_is_index : forall c vs,
   to_list (Unmasked c) = to_list (IndexedOption I64 (iota (clen c)) c).
 Proof. exact unmasked_as_indexedoption. Qed.
 Print Assumptions unmasked_is_index.
+
+(* refinement of the padding models (ListOffset / Regular over an IndexedOptionArray) to the specification *)
+Theorem pad_refines_spec : forall target c axis vs,
+  Valid None c -> frag c = true -> to_list c = Ok vs ->
+  obs (rpad_model target axis c) = rpad_spec target axis (type_of c) vs.
+Proof. exact rpad_refines. Qed.
+Print Assumptions pad_refines_spec.
+
+Theorem pad_clip_refines_spec : forall target c axis vs,
+  Valid None c -> frag c = true -> to_list c = Ok vs ->
+  obs (rpadclip_model target axis c) = rpadclip_spec target axis (type_of c) vs.
+Proof. exact rpadclip_refines. Qed.
+Print Assumptions pad_clip_refines_spec.
